@@ -1,7 +1,7 @@
 #!/usr/bin/env python3
 """Mutation self-test of the contracts (DESIGN.md 4.6).
 
-Each entry of selftest/mutations.json edits a scratch copy of /repo's sources (never /repo) and
+Each entry of selftest/mutations.json edits (string edits, or a patch file such as seeded/<id>/patch.diff) a scratch copy of /repo's sources (never /repo) and
 runs the unit against it.  `expect` is either the list of obligations that must fail, or "ok" for
 a benign refactor that must keep verifying, or "undecided" for an edit that must yield exit 2.
 The scratch copy lives under $VERIF_SCRATCH (default /tmp/verif_selftest) and is removed afterwards.
@@ -31,7 +31,13 @@ def main():
         os.makedirs(SCRATCH)
         subprocess.check_call(["rsync", "-a", "--exclude", "target", "--exclude", ".git", "--exclude", "web",
                                "--exclude", "*.snap", "/repo/", SCRATCH + "/"])
-        for ed in m["edits"]:
+        if m.get("patch"):
+            pr = subprocess.run(["patch", "-p1", "-s", "-i", os.path.join(ROOT, m["patch"])], cwd=SCRATCH, capture_output=True, text=True)
+            if pr.returncode != 0:
+                print("SELFTEST-STALE %s: patch does not apply: %s" % (m["name"], pr.stdout[-300:]))
+                bad += 1
+                continue
+        for ed in m.get("edits", []):
             p = os.path.join(SCRATCH, ed["file"])
             s = open(p).read()
             if s.count(ed["old"]) != ed.get("count", 1):
@@ -42,9 +48,15 @@ def main():
             open(p, "w").write(s)
         else:
             env = dict(os.environ, VERIF_REPO=SCRATCH)
-            r = subprocess.run([os.path.join(ROOT, "check"), "--unit", m["unit"]], env=env,
-                               capture_output=True, text=True)
-            failed = sorted({l.split()[1] for l in r.stdout.split("\n") if l.startswith("FAIL ")})
+            env["VERIF_EVIDENCE_DIR"] = os.path.join(SCRATCH, "_evidence")
+            env["VERIF_NO_REPLAY"] = "1"
+            if m.get("property"):
+                r = subprocess.run([os.path.join(ROOT, "check"), m["property"]], env=env, capture_output=True, text=True)
+                failed = sorted({l.split()[2].rstrip(":") for l in r.stdout.split("\n") if l.strip().startswith("failed obligation ")})
+            else:
+                r = subprocess.run([os.path.join(ROOT, "check"), "--unit", m["unit"]], env=env,
+                                   capture_output=True, text=True)
+                failed = sorted({l.split()[1] for l in r.stdout.split("\n") if l.startswith("FAIL ")})
             exp = m["expect"]
             if exp == "ok":
                 ok = r.returncode == 0
@@ -55,7 +67,7 @@ def main():
             else:
                 ok = r.returncode == 1 and all(e in failed for e in exp)
             print("%s %-40s unit=%-14s rc=%d failed=%s expect=%s" % (
-                "PASS" if ok else "MISS", m["name"], m["unit"], r.returncode, failed, exp))
+                "PASS" if ok else "MISS", m["name"], m.get("unit") or m.get("property"), r.returncode, failed, exp))
             if not ok:
                 bad += 1
                 print(r.stdout[-1500:])
